@@ -27,7 +27,7 @@ func ComputeTaint(p *Prog) *Taint {
 	for iter := 0; iter < 6; iter++ {
 		t.memo = map[ssa.Value]int{}
 		changed := false
-		for _, fn := range p.Fns {
+		for _, fn := range p.AllFns {
 			eachInstrLocal(fn, func(in ssa.Instruction) {
 				s, ok := in.(*ssa.Store)
 				if !ok {
@@ -201,7 +201,7 @@ func ruleClientCopyBeforeDecode(c *Check, a *Analysis, rule string) {
 	c.Rule(rule, "the bytes passed to ClientCodec.ReadResponseBody together with a user reply object do not alias the pooled read buffer (they were copied into a fresh or caller-supplied buffer first)", 1)
 	sc := siteCounter{}
 	n := 0
-	for _, fn := range p.Fns {
+	for _, fn := range p.AllFns {
 		for _, call := range invokesIn(fn, "ClientCodec", "ReadResponseBody") {
 			args := call.Common().Args
 			if nilConst(args[1]) {
